@@ -287,7 +287,7 @@ impl ZooVal for String {
 }
 impl ZooVal for std::sync::Arc<str> {
     fn ty_sx() -> String {
-        "str".into()
+        "astr".into()
     }
     fn gen(r: &mut Rng, sz: usize) -> Self {
         gen_string(r, sz).into()
@@ -345,7 +345,7 @@ impl<T: ZooVal> ZooVal for Vec<T> {
 }
 impl<T: ZooVal> ZooVal for Box<[T]> {
     fn ty_sx() -> String {
-        format!("(vec {})", T::ty_sx())
+        format!("(slice {})", T::ty_sx())
     }
     fn defs(d: &mut Defs) {
         T::defs(d)
@@ -359,7 +359,7 @@ impl<T: ZooVal> ZooVal for Box<[T]> {
 }
 impl<T: ZooVal> ZooVal for std::sync::Arc<[T]> {
     fn ty_sx() -> String {
-        format!("(vec {})", T::ty_sx())
+        format!("(slice {})", T::ty_sx())
     }
     fn defs(d: &mut Defs) {
         T::defs(d)
@@ -479,7 +479,7 @@ impl<T: ZooVal + Ord> ZooVal for BTreeSet<T> {
 }
 impl<T: ZooVal + Eq + std::hash::Hash> ZooVal for indexmap::IndexSet<T> {
     fn ty_sx() -> String {
-        format!("(seq {})", T::ty_sx())
+        format!("(iset {})", T::ty_sx())
     }
     fn defs(d: &mut Defs) {
         T::defs(d)
@@ -520,7 +520,7 @@ impl<K: ZooVal + Eq + std::hash::Hash, V: ZooVal, S: std::hash::BuildHasher + De
 }
 impl<K: ZooVal + Ord, V: ZooVal> ZooVal for BTreeMap<K, V> {
     fn ty_sx() -> String {
-        format!("(map {} {})", K::ty_sx(), V::ty_sx())
+        format!("(bmap {} {})", K::ty_sx(), V::ty_sx())
     }
     fn defs(d: &mut Defs) {
         K::defs(d);
@@ -594,10 +594,10 @@ impl<T: ZooVal, E: ZooVal> ZooVal for Result<T, E> {
 }
 
 macro_rules! zoo_wrap {
-    ($w:ty, $new:expr, $get:expr) => {
+    ($w:ty, $tag:expr, $new:expr, $get:expr) => {
         impl<T: ZooVal> ZooVal for $w {
             fn ty_sx() -> String {
-                format!("(wrap {})", T::ty_sx())
+                format!("({} {})", $tag, T::ty_sx())
             }
             fn defs(d: &mut Defs) {
                 T::defs(d)
@@ -613,14 +613,14 @@ macro_rules! zoo_wrap {
         }
     };
 }
-zoo_wrap!(Box<T>, Box::new, |s, c| (**s).sx(c));
-zoo_wrap!(std::rc::Rc<T>, std::rc::Rc::new, |s, c| (**s).sx(c));
-zoo_wrap!(std::sync::Arc<T>, std::sync::Arc::new, |s, c| (**s).sx(c));
-zoo_wrap!(std::cell::RefCell<T>, std::cell::RefCell::new, |s, c| s.borrow().sx(c));
-zoo_wrap!(std::sync::Mutex<T>, std::sync::Mutex::new, |s, c| s.lock().unwrap().sx(c));
-zoo_wrap!(std::sync::RwLock<T>, std::sync::RwLock::new, |s, c| s.read().unwrap().sx(c));
-zoo_wrap!(parking_lot::Mutex<T>, parking_lot::Mutex::new, |s, c| s.lock().sx(c));
-zoo_wrap!(parking_lot::RwLock<T>, parking_lot::RwLock::new, |s, c| s.read().sx(c));
+zoo_wrap!(Box<T>, "box", Box::new, |s, c| (**s).sx(c));
+zoo_wrap!(std::rc::Rc<T>, "box", std::rc::Rc::new, |s, c| (**s).sx(c));
+zoo_wrap!(std::sync::Arc<T>, "box", std::sync::Arc::new, |s, c| (**s).sx(c));
+zoo_wrap!(std::cell::RefCell<T>, "wrap", std::cell::RefCell::new, |s, c| s.borrow().sx(c));
+zoo_wrap!(std::sync::Mutex<T>, "wrap", std::sync::Mutex::new, |s, c| s.lock().unwrap().sx(c));
+zoo_wrap!(std::sync::RwLock<T>, "wrap", std::sync::RwLock::new, |s, c| s.read().unwrap().sx(c));
+zoo_wrap!(parking_lot::Mutex<T>, "wrap", parking_lot::Mutex::new, |s, c| s.lock().sx(c));
+zoo_wrap!(parking_lot::RwLock<T>, "wrap", parking_lot::RwLock::new, |s, c| s.read().sx(c));
 impl<T: ZooVal + Copy> ZooVal for std::cell::Cell<T> {
     fn ty_sx() -> String {
         format!("(cell {})", T::ty_sx())
